@@ -597,8 +597,10 @@ func (r *c06run) restatements() []vconn.Spec {
 	var out []vconn.Spec
 	c := r.w.Users[0].Conn
 	// (a) echoes of the last client action
+	// (only when no older echo is still on its way: a connector delivers echoes in order, and the echo of the last
+	// action describes the remote state INCLUDING the older actions, so ahead of their echoes it is not a restatement)
 	n := len(c.Echoes)
-	for i := n - r.newEcho; i < n && i >= 0; i++ {
+	for i := n - r.newEcho; n == r.newEcho && i < n && i >= 0; i++ {
 		out = append(out, c.Echoes[i])
 	}
 	// (b) duplicate delivery of the last applied update
